@@ -312,9 +312,17 @@ async fn handle_stream_append(
     let meta = match parts
         .headers
         .get("xs-meta")
-        .map(|x| x.to_str())
+        .map(|x| {
+            x.to_str()
+                .map_err(|e| format!("xs-meta isn't valid ASCII: {}", e))
+        })
         .transpose()
-        .unwrap()
+    {
+        Ok(meta) => meta,
+        Err(e) => return response_400(e),
+    };
+
+    let meta = match meta
         .map(|s| {
             // First decode the Base64-encoded string
             base64::prelude::BASE64_STANDARD
